@@ -150,7 +150,8 @@ fn run_list_archive(obs: &mut Obs, rng: &mut Rng, idx: u64) {
     // zero-byte "folder" placeholders (keys ending in '/'), as the S3 console creates them: they
     // are objects under the prefix like any other, named by their (empty) final path segment
     if hostile && rng.chance(1, 2) {
-        for key in [format!("{}/", prefix), format!("{}/dir{}/", prefix, rng.below(3))] {
+        // ... and keys whose final segment is "." or "..": text after the last '/', nothing else
+        for key in [format!("{}/", prefix), format!("{}/dir{}/", prefix, rng.below(3)), format!("{}/old/.", prefix), format!("{}/..", prefix)] {
             objs.push(Obj { key, last_modified: s3sim::rfc3339(1_500_000_000_000 + rng.below(200_000_000_000) as i64, rng.chance(1, 2)), size: "0".into() });
         }
         obs.count("listings_with_folder_placeholder_objects", 1);
@@ -201,7 +202,7 @@ fn run_list_archive(obs: &mut Obs, rng: &mut Rng, idx: u64) {
                 return;
             }
             match res {
-                Err(e) if is_connect_error(&e) => obs.inconclusive(format!("loopback connect failed: {e:?}")),
+                Err(e) if is_connect_error(&e) => obs.skipped_environment(format!("loopback connect failed: {e:?}")),
                 Err(e) => obs.violation("archive listing of a well-formed bucket fails", format!("{e:?}"), replay),
                 Ok(ids) => {
                     let got: Vec<String> = ids.iter().map(|i| i.name().to_string()).collect();
@@ -271,7 +272,7 @@ fn run_list_realtime(obs: &mut Obs, rng: &mut Rng, idx: u64) {
     // a neighbouring volume whose number has this one as a prefix: SITE/5/ vs SITE/55/
     objs.push(Obj { key: format!("{}/{}5/20240813-000000-001-S", site, vol), last_modified: s3sim::rfc3339(1_600_000_000_000, false), size: "7".into() });
     objs.sort_by(|a, b| a.key.as_bytes().cmp(b.key.as_bytes()));
-    let max_keys = *rng.pick(&[1usize, 2, 10, 54, 55, 100, 1000, 5000]);
+    let max_keys = *rng.pick(&[1usize, 2, 10, 54, 55, 100, 1000, 5000, 0]);
     let scope = Arc::new(Mutex::new(Bucket { objs: objs.clone(), data: HashMap::new(), list_mode: ListMode::Normal, log: vec![] }));
     sim.register(&site, scope.clone());
     obs.case(mix(mix(171, n as u64), mix(max_keys as u64, hostile as u64)));
@@ -282,7 +283,7 @@ fn run_list_realtime(obs: &mut Obs, rng: &mut Rng, idx: u64) {
     let replay = json!({"scenario": "realtime-list", "index": idx, "prefix": prefix, "max_keys": max_keys, "keys": under.iter().take(30).map(|o| o.key.clone()).collect::<Vec<_>>(), "requests": log});
     match r {
         Err(p) => obs.violation(format!("list_chunks_in_volume {}", p.signature()), p.message, replay),
-        Ok(Err(e)) if is_connect_error(&e) => obs.inconclusive(format!("loopback connect failed: {e:?}")),
+        Ok(Err(e)) if is_connect_error(&e) => obs.skipped_environment(format!("loopback connect failed: {e:?}")),
         Ok(Err(e)) => obs.violation("real-time listing of a well-formed bucket fails", format!("{e:?}"), replay),
         Ok(Ok(ids)) => {
             let ok_req = log.len() == 1 && {
@@ -482,7 +483,7 @@ fn run_download(obs: &mut Obs, rng: &mut Rng, idx: u64, big: usize) {
     }
     match r {
         Err(p) => obs.violation(format!("download {}", p.signature()), format!("{} (object of {} bytes, status {})", p.message, bytes.len(), status), replay),
-        Ok(Err(e)) if is_connect_error(&e) => obs.inconclusive(format!("loopback connect failed: {e:?}")),
+        Ok(Err(e)) if is_connect_error(&e) => obs.skipped_environment(format!("loopback connect failed: {e:?}")),
         Ok(res) => match (status, res) {
             (0, Err(Error::AWS(AWSError::S3ObjectNotFoundError))) | (404, Err(Error::AWS(AWSError::S3ObjectNotFoundError))) => obs.count("missing_object_is_not_found_error", 1),
             (0, other) | (404, other) => obs.violation("missing object is not mapped to the not-found error", format!("{:?}", other.map(|_| "Ok").map_err(|e| format!("{e:?}"))), replay),
